@@ -60,8 +60,8 @@ struct Snapshot {
 struct St {
     db: Db,
     now: i64,
-    phase: [Phase; 4],
-    snap: [Snapshot; 4],
+    phase: [Phase; 5],
+    snap: [Snapshot; 5],
 }
 
 struct Slot {
@@ -73,6 +73,9 @@ struct Slot {
     amounts: (u64, u64),
     /// unreachable minimum output => the execution fails softly
     unreachable_min: bool,
+    /// minimum output of a deposit whose reachability depends on the published prices
+    /// (0 = none): such an action can be cancelled at one price and would succeed at another
+    price_dependent_min: u64,
 }
 
 struct Life {
@@ -198,7 +201,7 @@ impl Machine for Life {
                 let m = self.markets()[sl.market];
                 let before = self.holdings(&s.db, sl);
                 let r = if sl.is_deposit {
-                    w.create_deposit(&mut n.db, m, sl.owner, sl.nonce, sl.amounts.0, sl.amounts.1, if sl.unreachable_min { u64::MAX } else { 0 }, sl.owner)
+                    w.create_deposit(&mut n.db, m, sl.owner, sl.nonce, sl.amounts.0, sl.amounts.1, if sl.unreachable_min { u64::MAX } else { sl.price_dependent_min }, sl.owner)
                 } else {
                     let amount = before.2 / 2;
                     w.create_withdrawal(&mut n.db, m, sl.owner, sl.nonce, amount, if sl.unreachable_min { u64::MAX } else { 0 }, 0, sl.owner)
@@ -308,7 +311,7 @@ impl Machine for Life {
                         }
                     }
                     // completeness guard: fresh prices published after creation, reachable minimum => must complete
-                    if who == Who::Keeper && s.phase[i] == Phase::Pending && !sl.unreachable_min && res.is_ok() && n.phase[i] != Phase::Completed {
+                    if who == Who::Keeper && s.phase[i] == Phase::Pending && !sl.unreachable_min && sl.price_dependent_min == 0 && res.is_ok() && n.phase[i] != Phase::Completed {
                         out.count("reachable_action_cancelled", 1);
                     }
                 }
@@ -382,20 +385,37 @@ pub fn run(cli: &Cli) -> Report {
     w.create_deposit(&mut db, &w.m1.clone(), w.user, seed, 1_000_000, 12_000_000, 0, w.user).expect("seed create");
     w.execute_deposit(&mut db, &w.m1.clone(), w.user, seed, w.keeper, true).expect("seed execute");
     w.close_deposit(&mut db, &w.m1.clone(), w.user, seed, w.user).expect("seed close");
+    // a deposit of the stable token only mints fewer market tokens when the index price is higher:
+    // probe both published price sets and put the minimum output between the two results
+    let probe = |reprice: bool| -> u64 {
+        let mut d = db.clone();
+        W::set_time(1_000);
+        if reprice {
+            w.set_feeds(&mut d, 1_000, (12_9000_0000, 13_1000_0000), (9990_0000, 1_0010_0000));
+        }
+        let n = [7u8; 32];
+        w.create_deposit(&mut d, &w.m1.clone(), w.user2, n, 0, 12_000_000, 0, w.user2).expect("probe create");
+        w.execute_deposit(&mut d, &w.m1.clone(), w.user2, n, w.keeper, true).expect("probe execute");
+        token_amount(&d, &ata(&w.deposit_pda(&w.user2, &n), &w.m1.market_token))
+    };
+    let (mint_a, mint_b) = (probe(false), probe(true));
+    assert!(mint_a != mint_b && mint_a > 0 && mint_b > 0, "price-dependent minimum needs two different mint amounts ({mint_a}, {mint_b})");
+    let price_dependent_min = mint_a.min(mint_b) + (mint_a.abs_diff(mint_b) + 1) / 2;
     let slots = vec![
-        Slot { is_deposit: true, market: 0, owner: w.user, nonce: [1; 32], amounts: (1_000_000, 12_000_000), unreachable_min: false },
-        Slot { is_deposit: true, market: 1, owner: w.user2, nonce: [2; 32], amounts: (500_000, 0), unreachable_min: true },
-        Slot { is_deposit: false, market: 0, owner: w.user, nonce: [3; 32], amounts: (0, 0), unreachable_min: false },
-        Slot { is_deposit: false, market: 0, owner: w.user2, nonce: [4; 32], amounts: (0, 0), unreachable_min: true },
+        Slot { is_deposit: true, market: 0, owner: w.user, nonce: [1; 32], amounts: (1_000_000, 12_000_000), unreachable_min: false, price_dependent_min: 0 },
+        Slot { is_deposit: true, market: 0, owner: w.user2, nonce: [5; 32], amounts: (0, 12_000_000), unreachable_min: false, price_dependent_min },
+        Slot { is_deposit: false, market: 0, owner: w.user, nonce: [3; 32], amounts: (0, 0), unreachable_min: false, price_dependent_min: 0 },
+        Slot { is_deposit: true, market: 1, owner: w.user2, nonce: [2; 32], amounts: (500_000, 0), unreachable_min: true, price_dependent_min: 0 },
+        Slot { is_deposit: false, market: 0, owner: w.user2, nonce: [4; 32], amounts: (0, 0), unreachable_min: true, price_dependent_min: 0 },
     ];
-    let n_slots = if th { 4 } else { 3 };
+    let n_slots = if th { 5 } else { 3 };
     let mut acts = vec![];
     for i in 0..n_slots {
         acts.extend([Act::Create(i), Act::Exec(i, Who::Keeper), Act::Exec(i, Who::Stranger), Act::Close(i, Who::Owner), Act::Close(i, Who::Keeper), Act::Close(i, Who::Stranger)]);
     }
     acts.extend([Act::Adv(30), Act::Adv(100), Act::Refresh, Act::Reprice]);
     let life = Life { w, acts, slots, props };
-    let start = St { db, now: 1_000, phase: [Phase::Absent; 4], snap: [Snapshot::default(); 4] };
+    let start = St { db, now: 1_000, phase: [Phase::Absent; 5], snap: [Snapshot::default(); 5] };
     if let Some(rv) = &cli.replay {
         e2::replay_into(&mut rep, &life, &[start], rv);
         return rep;
